@@ -335,7 +335,17 @@ theorem windBlock_pre (gp : Nat) (ld : Bool) (cs : List ABlock) (b : ABlock) (L 
     simp only [Function.comp, mkE]
     exact ite_self _
 
-theorem validate_pre (fl : Flags) (hw : fl.windFailureRestores = false) (hg : fl.gtEveryBlock = false)
+/-- on a one-block candidate the every-block ticket rule is the tip rule -/
+theorem gtAllValid_pre (gp : Nat) (ld : Bool) (cs : List ABlock) (b : ABlock) (L : Lin gp (cs ++ [b])) :
+    gtAllValid (preSt gp ld cs b) [b.hash] = gtCountValid (preSt gp ld cs b) b.prev b.hasGT := by
+  unfold gtAllValid blocksOf
+  simp only [List.filterMap_cons, List.filterMap_nil, getB_pre_new gp ld cs b L, Option.map_some, mkE,
+    List.all_cons, List.all_nil, Bool.and_true]
+
+/-- `validate` on the one-block candidate over an empty old chain, for EVERY flag vector: the repaired loop
+    (`windFailureRestores`) starts in `.wind 0 false` like the pinned one and succeeds in one step; the repaired
+    ticket rule (`gtEveryBlock`) ranges over the single candidate block, i.e. it is the tip rule. -/
+theorem validate_pre (fl : Flags)
     (gp : Nat) (ld : Bool) (cs : List ABlock) (b : ABlock) (L : Lin gp (cs ++ [b])) :
     validate fl (preSt gp ld cs b) [b.hash] [] = some (linSt gp ld (cs ++ [b]), true) := by
   have hpl := L.pl b (by simp)
@@ -346,18 +356,37 @@ theorem validate_pre (fl : Flags) (hw : fl.windFailureRestores = false) (hg : fl
     exact (L.pl x hx).2.1
   have hgt : gtCountValid (preSt gp ld cs b) b.prev b.hasGT = true := by
     rw [hpl.2.1]; exact gtCountValid_all _ hall _
+  have hgta : gtAllValid (preSt gp ld cs b) [b.hash] = true := by
+    rw [gtAllValid_pre gp ld cs b L]; exact hgt
   have hv : validB fl (preSt gp ld cs b) b = true := by
     simp [validB, hpl.1, L.onp b (by simp), hpl.2.2.1]
+  have hgtOk : (if fl.gtEveryBlock = true then gtAllValid (preSt gp ld cs b) [b.hash]
+      else gtCountValid (preSt gp ld cs b) b.prev b.hasGT) = true := by
+    split
+    · exact hgta
+    · exact hgt
   unfold validate
-  simp only [List.head?_cons, getB_pre_new gp ld cs b L, mkE, hgt, hw, hg, Bool.not_true, Bool.false_eq_true, if_false,
+  simp only [List.head?_cons, getB_pre_new gp ld cs b L, mkE, hgtOk, Bool.not_true, Bool.false_eq_true, if_false,
     List.isEmpty_nil, if_true, List.length_cons, List.length_nil]
-  show runWR fl [b.hash] [] (27 + 1) (preSt gp ld cs b) (.wind 0 false) = _
-  rw [runWR]
-  · simp only [stepWR, Bool.false_and, Bool.false_eq_true, if_false, List.getElem?_cons_zero, getB_pre_new gp ld cs b L, mkE, hv,
-      if_true, beq_self_eq_true, windBlock_pre gp ld cs b L]
-    rfl
-  · intro h; cases h
-  · intro h; cases h
+  cases hw : fl.windFailureRestores with
+  | false =>
+    simp only [Bool.false_eq_true, if_false]
+    show runWR fl [b.hash] [] (27 + 1) (preSt gp ld cs b) (.wind 0 false) = _
+    rw [runWR]
+    · simp only [stepWR, Bool.false_and, Bool.false_eq_true, if_false, List.getElem?_cons_zero, getB_pre_new gp ld cs b L, mkE, hv,
+        if_true, beq_self_eq_true, windBlock_pre gp ld cs b L]
+      rfl
+    · intro h; cases h
+    · intro h; cases h
+  | true =>
+    simp only [if_true]
+    show runWRF fl [b.hash] [] (5 + 1) (preSt gp ld cs b) (.wind 0 false) = _
+    rw [runWRF]
+    · simp only [stepWRF, Bool.false_and, Bool.false_eq_true, if_false, List.getElem?_cons_zero, getB_pre_new gp ld cs b L, mkE, hv,
+        if_true, beq_self_eq_true, windBlock_pre gp ld cs b L]
+      rfl
+    · intro h; cases h
+    · intro h; cases h
 
 theorem checkSupply_lin (gp : Nat) (ld : Bool) (bs : List ABlock) (last : ABlock) (L : Lin gp (bs ++ [last])) :
     checkSupply (linSt gp ld (bs ++ [last])) = some (linSt gp ld (bs ++ [last])) := by
@@ -377,9 +406,9 @@ theorem calcOld_self (st : State) (s fuel : Nat) : calcOld st s (fuel + 1) s [] 
   unfold calcOld
   simp
 
-/-- **Adoption of the next block of a linear all-valid chain, for every length below `genesis_period`** (pinned
-    flags): the state stays in closed form and the outcome is `added_lc`, whatever the retry queue holds. -/
-theorem addBlock_lin (fl : Flags) (hw : fl.windFailureRestores = false) (hg : fl.gtEveryBlock = false)
+/-- **Adoption of the next block of a linear all-valid chain, for every length below `genesis_period`** (every
+    flag vector, pinned or repaired): the state stays in closed form and the outcome is `added_lc`, whatever the retry queue holds. -/
+theorem addBlock_lin (fl : Flags)
     (gp : Nat) (ld : Bool) (bs : List ABlock) (last b : ABlock) (rq : List Nat)
     (L : Lin gp (bs ++ [last] ++ [b])) (hprev : b.prev = last.hash) :
     addBlock fl (linSt gp ld (bs ++ [last])) b rq = (linSt gp ld (bs ++ [last] ++ [b]), Outcome.addedLc) := by
@@ -408,7 +437,7 @@ theorem addBlock_lin (fl : Flags) (hw : fl.windFailureRestores = false) (hg : fl
   have hgt : decide (b.id > last.id - (midSt gp ld (bs ++ [last]) b).gp) = true := by
     simp [hid, hlid]; omega
   simp only [hgt, isLongest_mid gp ld bs last b L, Bool.and_self, if_true, setLC_mid gp ld _ b L,
-    validate_pre fl hw hg gp ld _ b L]
+    validate_pre fl gp ld _ b L]
   rw [checkSupply_lin gp ld (bs ++ [last]) b L]
 
 /-! ### a whole chain: prefixes, the ladder -/
@@ -429,7 +458,7 @@ theorem Lin.take {gp : Nat} {c : List ABlock} (L : Lin gp c) (m : Nat) : Lin gp 
 /-- every block but the first names its predecessor -/
 def Linked (c : List ABlock) : Prop := ∀ k (hk : k + 1 < c.length), (c[k + 1]).prev = (c[k]'(by omega)).hash
 
-theorem addBlock_chain (fl : Flags) (hw : fl.windFailureRestores = false) (hg : fl.gtEveryBlock = false)
+theorem addBlock_chain (fl : Flags)
     (gp : Nat) (ld : Bool) (c : List ABlock) (m : Nat) (rq : List Nat) (L : Lin gp c) (hl : Linked c)
     (hm1 : 1 ≤ m) (hm : m < c.length) :
     addBlock fl (linSt gp ld (c.take m)) c[m] rq = (linSt gp ld (c.take (m + 1)), Outcome.addedLc) := by
@@ -437,7 +466,7 @@ theorem addBlock_chain (fl : Flags) (hw : fl.windFailureRestores = false) (hg : 
   have e1 : c.take (j + 1) = c.take j ++ [c[j]] := take_snoc c j (by omega)
   have e2 : c.take (j + 1 + 1) = c.take j ++ [c[j]] ++ [c[j + 1]] := by rw [take_snoc c (j + 1) hm, e1]
   rw [e1, e2]
-  apply addBlock_lin fl hw hg
+  apply addBlock_lin fl
   · rw [← e2]; exact L.take _
   · exact hl j hm
 
@@ -521,7 +550,7 @@ theorem linBlk_eq (c : List ABlock) (m0 : Nat) (d : ABlock) (i : Nat) (h : m0 + 
   simp [linBlk, List.getD, h]
 
 /-- **the ladder conditions hold for every linear all-valid chain** (any length below `genesis_period`, retry rule on) -/
-theorem ladder_lin (fl : Flags) (hw : fl.windFailureRestores = false) (hg : fl.gtEveryBlock = false) (gp : Nat) (c : List ABlock) (m0 : Nat) (d : ABlock) (L : Lin gp c) (hl : Linked c)
+theorem ladder_lin (fl : Flags) (gp : Nat) (c : List ABlock) (m0 : Nat) (d : ABlock) (L : Lin gp c) (hl : Linked c)
     (hm1 : 1 ≤ m0) (hm : m0 ≤ c.length) :
     Ladder fl (c.length - m0) (linSts gp c m0) (linBlk c m0 d) := by
   refine ⟨?_, ?_, ?_, ?_, ?_⟩
@@ -529,7 +558,7 @@ theorem ladder_lin (fl : Flags) (hw : fl.windFailureRestores = false) (hg : fl.g
     have hlt : m0 + k < c.length := by omega
     refine ⟨Outcome.addedLc, ?_, rfl, rfl⟩
     rw [linBlk_eq c m0 d k hlt]
-    exact addBlock_chain fl hw hg gp true c (m0 + k) rq L hl (by omega) hlt
+    exact addBlock_chain fl gp true c (m0 + k) rq L hl (by omega) hlt
   · intro k i hki hi rq
     have hlt : m0 + i < c.length := by omega
     rw [linBlk_eq c m0 d i hlt]
